@@ -156,11 +156,20 @@ pub fn random_setup_x(r: &mut Rng, backend: &str, tag: u64, extreme: bool) -> Se
         min: if extreme { *r.pick(&[0u128, 1, 1000, 10u128.pow(27)]) } else { *r.pick(&[1u128, 10, 100, 1000]) },
         batch_period: if extreme { extreme_period(r) } else { *r.pick(&[60u64, 3600, 86_400]) },
         unbonding: if extreme { extreme_period(r) } else { *r.pick(&[120u64, 7200, 1_814_400]) },
-        monitors: (0..r.below(3)).map(|i| addr(CHAIN_PREFIX, &format!("monitor{i}"), 20)).collect(),
+        monitors: monitor_set(r),
         sub: r.pick(&["stTIA", "milkTIA", "abcd", "milkTIAxxxxxxxxxxxxxxxxxxxxxxxxxxxxxxxxxxxxxxxxxxxxxxxxx"]).to_string(),
-        users: (0..nusers).map(|i| addr(CHAIN_PREFIX, &format!("user{i}"), 20)).collect(),
+        // the last of four or more users has a contract-length address (the by-user index orders by length first,
+        // and such a sender must name the recipient of a stake)
+        users: (0..nusers).map(|i| addr(CHAIN_PREFIX, &format!("user{i}"), if nusers >= 4 && i + 1 == nusers { 32 } else { 20 })).collect(),
         native_users: (0..2).map(|i| addr(&np, &format!("nuser{i}"), 20)).collect(),
     }
+}
+
+/// 0–4 monitors in an arbitrary (not sorted) order.
+pub fn monitor_set(r: &mut Rng) -> Vec<String> {
+    let n = r.below(5);
+    let off = r.below(4);
+    (0..n).map(|i| addr(CHAIN_PREFIX, &format!("monitor{}", (i * 3 + off) % 5), 20)).collect()
 }
 
 pub struct Flags {
@@ -352,6 +361,22 @@ impl WorldGen {
         // time always moves a little
         let dt = 1 + self.r.below(5_000_000_000);
         self.w.tick(dt);
+        if self.extreme {
+            // entry-point robustness: a malformed reply to the next sub-message, or a reply nobody is waiting for
+            self.w.bad_reply_next = if self.r.chance(4) { Some(*self.r.pick(&["nodata", "baddata"])) } else { None };
+            if self.r.chance(3) {
+                let id = *self.r.pick(&[0u64, 1, 2, 3, u64::MAX]);
+                let line = match self.r.below(3) {
+                    0 => format!("reply {} ok {}", id, self.r.below(5)),
+                    1 => format!("reply {} err", id),
+                    _ => format!("reply {} nodata", id),
+                };
+                self.w.ops.push(line.clone());
+                let toks: Vec<&str> = line.split(' ').collect();
+                let seq = if toks.len() > 3 { p_u64(toks[3]) } else { 0 };
+                self.w.sim.reply(p_u64(toks[1]), toks[2], seq);
+            }
+        }
         match k {
             0..=7 => {
                 let u = self.user();
@@ -549,6 +574,13 @@ impl WorldGen {
                             if self.r.chance(30) && ids.len() > 1 {
                                 ids.truncate(1);
                             }
+                            if self.r.chance(20) {
+                                // a selection across receivers and denoms (must be refused as a whole)
+                                ids = refundable.iter().map(|p| p.sequence).collect();
+                                if self.r.chance(50) {
+                                    ids.reverse();
+                                }
+                            }
                             if self.r.chance(35) {
                                 // the same id twice: next to itself or with other ids in between, at either end
                                 let d = ids[self.r.below(ids.len() as u64) as usize];
@@ -681,7 +713,11 @@ impl WorldGen {
         let who = if self.r.chance(85) { admin.to_string() } else { self.user() };
         match self.r.below(12) {
             0 => {
-                let who = if self.r.chance(50) && !v.cfg.monitors.is_empty() { v.cfg.monitors[0].to_string() } else { who };
+                let who = if self.r.chance(50) && !v.cfg.monitors.is_empty() {
+                    v.cfg.monitors[self.r.below(v.cfg.monitors.len() as u64) as usize].to_string()
+                } else {
+                    who
+                };
                 self.w.exec(None, &who, vec![], "breaker");
             }
             1 => {
@@ -706,7 +742,7 @@ impl WorldGen {
                 self.w.exec(None, &who, vec![], &format!("updcfg - - - - {}", bp));
             }
             5 => {
-                let ms: Vec<String> = (0..self.r.below(3)).map(|i| addr(CHAIN_PREFIX, &format!("monitor{i}"), 20)).collect();
+                let ms: Vec<String> = monitor_set(&mut self.r);
                 self.w.exec(None, &who, vec![], &format!("updcfg - - - {} -", s_list(&ms, |m| hs(m))));
             }
             6 => {
@@ -779,11 +815,13 @@ impl WorldGen {
         let hook_c = staking::helpers::derive_intermediate_sender(&ch, &collector, CHAIN_PREFIX).unwrap_or_default();
         let nominee = v.st.pending_owner.as_ref().map(|a| a.to_string()).unwrap_or_else(|| self.s.users[0].clone());
         let monitor = v.cfg.monitors.first().map(|a| a.to_string()).unwrap_or_else(|| addr(CHAIN_PREFIX, "monitor0", 20));
+        let last_monitor = v.cfg.monitors.last().map(|a| a.to_string()).unwrap_or_else(|| addr(CHAIN_PREFIX, "monitor1", 20));
         let mut principals = vec![
             admin.clone(),
             self.s.admin.clone(), // the original admin: a former admin after a hand-over
             nominee,
             monitor,
+            last_monitor,
             hook_s,
             hook_c,
             self.s.me.clone(),
@@ -814,6 +852,11 @@ impl WorldGen {
             ("[]".to_string(), format!("updcfg - - ({};-) - -", 777)),
             ("[]".to_string(), "updcfg - - - [] 77".to_string()),
             (d(5000), "rewards".to_string()),
+            // rewards whose funds carry other coins, or no staked-asset coin at all
+            (format!("[{}:{},{}:{}]", hs("uosmo"), 5, hs(D), 7000), "rewards".to_string()),
+            (format!("[{}:{},{}:{}]", hs(D), 7000, hs(&lst), 5), "rewards".to_string()),
+            (format!("[{}:{}]", hs("uosmo"), 5), "rewards".to_string()),
+            ("[]".to_string(), "rewards".to_string()),
             ("[]".to_string(), "breaker".to_string()),
             (
                 "[]".to_string(),
@@ -837,6 +880,7 @@ impl WorldGen {
             variants.push((format!("[{}:{}]", hs("uosmo"), 5), format!("unstaked {}", b.id)));
             variants.push((format!("[{}:{}]", hs(&lst), 5), format!("unstaked {}", b.id)));
             variants.push((format!("[{}:{}]", hs("utia"), 5), format!("unstaked {}", b.id)));
+            variants.push((format!("[{}:{},{}:{}]", hs("uosmo"), 5, hs(D), 9), format!("unstaked {}", b.id)));
         }
         // time far enough for every deadline
         let t = self.w.now_ns + 40 * 86_400 * 1_000_000_000;
@@ -1056,6 +1100,10 @@ impl WorldGen {
             self.w.ops.push(format!("query requests {}", hs(u)));
         }
         self.w.ops.push(format!("query requests {}", hs(&addr(CHAIN_PREFIX, "nobody", 20))));
+        for (c, l) in [("-", "-"), ("-", "0"), ("-", "1"), ("-", "3"), ("1", "-"), ("0", "2"), ("18446744073709551615", "4294967295")] {
+            self.w.ops.push(format!("query allreq {} {}", c, l));
+            self.w.ops.push(format!("query allreq2 {} {}", c, l));
+        }
         self.w.ops.push("query replyq - -".to_string());
     }
 
@@ -1109,6 +1157,40 @@ impl WorldGen {
                 self.w.exec(None, &admin, vec![], &format!("recover - {} {}", s_list(&sh, |x| x.to_string()), hs(&staker)));
             }
         }
+    }
+
+    /// More refunded transfers toward the staker than one recovery page (10): the default, the paginated and the
+    /// unpaginated recovery in rolled-back transactions, then one page and the rest for real.
+    pub fn scripted_backlog(&mut self) {
+        let u = self.s.users[0].clone();
+        let n = 11 + self.r.below(4);
+        for k in 0..n {
+            self.w.faucet(&u, D, 1_000_000);
+            self.w.tick(1_000_000_000);
+            let a = 1000u128.max(self.s.min) + self.r.u128_upto(50_000);
+            self.w.exec(Some(k as u32), &u, vec![Coin::new(a, D)], "stake - - -");
+        }
+        let flying: Vec<u64> = self.w.chain.packets.values().filter(|p| p.state == crate::world::PState::Flight).map(|p| p.seq).collect();
+        for q in flying {
+            let o = if self.r.chance(50) { "err" } else { "timeout" };
+            self.w.tick(1_000_000_000);
+            self.w.relay(q, o);
+        }
+        let staker = self.s.staker.clone();
+        let t = self.w.now_ns;
+        for variant in ["recover - - -".to_string(), "recover 1 - -".to_string(), "recover 0 - -".to_string(), format!("recover - - {}", hs(&staker)), format!("recover 1 - {}", hs(&staker))] {
+            let snap = clone_storage(&self.w.sim.deps.storage);
+            let toks: Vec<&str> = variant.split(' ').collect();
+            self.w.ops.push("tx_begin".to_string());
+            self.w.ops.push(format!("exec {} 1 {} [] {}", t, hs(&u), variant));
+            self.w.sim.execute(t, Some(1), &u, vec![], parse_exec(&toks));
+            self.w.ops.push("tx_abort".to_string());
+            self.w.sim.deps.storage = snap;
+        }
+        self.w.tick(1_000_000_000);
+        self.w.exec(None, &u, vec![], "recover 1 - -");
+        self.w.tick(1_000_000_000);
+        self.w.exec(None, &u, vec![], "recover - - -");
     }
 
     /// World-level observation after an event: the simulator's own ledgers, for the world monitors.
@@ -1182,6 +1264,8 @@ impl WorldGen {
         let us = self.s.users.clone();
         ops.push(format!("query requests {}", hs(self.r.pick::<String>(&us).as_str())));
         ops.push(format!("query ibcq {} {}", sa, lim));
+        ops.push(format!("query allreq {} {}", sa, lim));
+        ops.push(format!("query allreq2 {} {}", sa, lim));
         ops.push(format!("query replyq - -"));
     }
 }
